@@ -145,7 +145,7 @@ def wholeRef (text : String) (segs : List String) : Ref := ⟨text, .whole, ⟨"
 def hashRef (frag : String) : Ref := ⟨"#" ++ frag, .internal, ⟨"", "", false, []⟩, frag, false⟩
 def fragRef (text : String) (segs : List String) (frag : String) : Ref :=
   ⟨text, .fragment, ⟨"", "", false, segs⟩, frag, false⟩
-def leafFile : File := ⟨true, [], [], [], []⟩
+def leafFile : File := { parses := true, tops := [], elems := [], typed := [], raw := [] }
 /-- an element file of one kind -/
 def elemView (k : Kind) (ns : List Node) : List (Kind × List Node) := [(k, ns)]
 
